@@ -237,6 +237,13 @@ def handle_lists(ctx, rng, tabs, n):
     return out, {h: k for k, v in pools.items() for h in v}
 
 
+def corpus_entries():
+    import json
+    import os
+    d = core.VERIF + '/corpus/C20'
+    return [json.load(open(os.path.join(d, f))) for f in sorted(os.listdir(d))] if os.path.isdir(d) else []
+
+
 def mdib_variants(ctx):
     """(name, file, n extra context descriptors, n extra context states)"""
     rng = ctx.subrng('variants')
@@ -262,6 +269,7 @@ def run_states(ctx):
         all_lines += model_lines(tabs)
         expect += [None] * (len(all_lines) - len(expect))
         hls, kind_of = handle_lists(ctx, rng, tabs, ctx.n(40, 120))
+        hls = [c['handles'] for c in corpus_entries() if c.get('variant') == name] + hls   # past failures first
         for handles in hls:
             for hd in handles:
                 ctx.count('handle-kind:' + kind_of.get(hd, '?'))
@@ -395,8 +403,9 @@ def run_texts(ctx):
         lines.append('tw ' + ('-' if w is None else w))
         expect.append(('tw', {'width': w}, impl))
     rng = ctx.subrng('texts')
+    stores = [[tuple(t) for t in c['store']] for c in corpus_entries() if 'store' in c]
     for k in range(ctx.n(60, 600)):
-        store = mk_store(rng, rng.choice([0, 1, 2, 3, 5, 8, 12, 16]))
+        store = stores[k] if k < len(stores) else mk_store(rng, rng.choice([0, 1, 2, 3, 5, 8, 12, 16]))
         via_service = k % 3 == 0
         storage = ls.LocalizationStorage()
         fill_storage(storage, store)
